@@ -11,6 +11,10 @@ from vf import rt
 from vf import world
 import vfx.alpha.mod as A
 import vfx.beta.mod as B
+import vfw.core as W            # widened kinds: re-export, module-level alias, inherited / static / nested methods
+import vfw.sib.one as S1        # sibling modules with same-named members
+import vfw.sib.two as S2
+import Vfz.mod as Z             # top-level package whose name sorts before `__gin__`
 
 DR = 'from __gin__ import dynamic_registration'
 # (import statement, bound name) for vfx.<pkg>.mod
@@ -43,6 +47,47 @@ def cleanup_vfx():
     gc._RENAMED_SELECTORS.clear()
     del A.CALLS[:]
     del B.CALLS[:]
+
+
+# -- widened harnesses: fixture packages vfw, Vfz (and vfy); vfw.deco registers by decorator at import ----------------
+_DECO = {}
+OWN = ('vfw', 'Vfz', 'vfy')
+
+
+def deco():
+  """Imports vfw.deco (lazily: c06/c15 import this module too) and remembers what its decorators registered."""
+  import vfw.deco as D
+  if not _DECO:
+    with rt.native():
+      _DECO['reg'] = {sel: gc._REGISTRY[sel] for sel in list(gc._REGISTRY._selector_map)
+                      if getattr(gc._REGISTRY[sel].wrapped, '__module__', '') == 'vfw.deco'}
+      _DECO['inv'] = {obj: c for obj, c in gc._INVERSE_REGISTRY.items()
+                      if getattr(obj, '__module__', '') == 'vfw.deco'}
+  return D
+
+
+def cleanup19():
+  """cleanup_vfx() plus the fixture packages of the widened harnesses; decorator registrations are restored."""
+  cleanup_vfx()
+  with rt.native():
+    base_reg, base_inv = _DECO.get('reg', {}), _DECO.get('inv', {})
+    for sel in list(gc._REGISTRY._selector_map):
+      mod = getattr(gc._REGISTRY[sel].wrapped, '__module__', '') or ''
+      if mod.split('.')[0] in OWN and sel not in base_reg:
+        gc._REGISTRY.pop(sel)
+    for sel, c in base_reg.items():
+      if sel not in gc._REGISTRY._selector_map or gc._REGISTRY[sel] is not c:
+        gc._REGISTRY[sel] = c
+    for obj in list(gc._INVERSE_REGISTRY):
+      if ((getattr(obj, '__module__', '') or '').split('.')[0] in OWN) and obj not in base_inv:
+        del gc._INVERSE_REGISTRY[obj]
+    for obj, c in base_inv.items():
+      gc._INVERSE_REGISTRY[obj] = c
+    gc._RENAMED_SELECTORS.clear()
+    for m_ in (W, S1, S2, Z):
+      del m_.CALLS[:]
+    if 'vfw.deco' in sys.modules:
+      del sys.modules['vfw.deco'].CALLS[:]
 
 
 def received(target):
@@ -146,13 +191,42 @@ ERRORS = [
     (DR + '\nimport vfx.alpha.mod as am\nam.consumer.p = @bm.Cls()\n', NameError),          # reference, not imported
     (DR + '\nimport vfx.alpha.mod as am\nam.fn.x = 1\n', None),                         # control: fine
     (DR + "\ninclude 'defs.gin'\nimport vfx.alpha.mod as am\nam.fn.x = 2\n", None),     # own import after include: fine
+    # -- widened: the reserved name, bound WITHOUT an alias / through a from-import alias
+    (DR + '\nimport gin\n', ValueError),
+    (DR + '\nimport gin.config\n', ValueError),
+    (DR + '\nfrom vfx.alpha import mod as gin\n', ValueError),
+    # -- the enabling statement a second time after an import / late after a from-import / aliased to its own name
+    (DR + '\nimport vfx.alpha.mod as am\n' + DR + '\n', SyntaxError),
+    ('from vfx.alpha import mod\n' + DR + '\n', SyntaxError),
+    ('from __gin__ import dynamic_registration as dynamic_registration\n', SyntaxError),
+    # -- unknown feature after a valid enabling statement / aliased
+    (DR + '\nfrom __gin__ import no_such_feature\n', SyntaxError),
+    ('from __gin__ import no_such_feature as f\n', SyntaxError),
+    # -- names of OTHER files: a sibling include, a grandchild, a grandparent
+    (DR + "\ninclude 'defs.gin'\ninclude 'child.gin'\n", NameError),
+    (DR + "\ninclude 'mid_defs.gin'\nam.fn.x = 1\n", NameError),
+    (DR + "\nimport vfx.alpha.mod as am\ninclude 'mid_child.gin'\n", NameError),
+    # -- a not imported name in other positions: nested value, scoped binding, block header, scoped reference
+    (DR + '\nimport vfx.alpha.mod as am\nam.consumer.p = {"k": [@bm.Cls]}\n', NameError),
+    (DR + '\nimport vfx.alpha.mod as am\ns/bm.fn.x = 1\n', NameError),
+    (DR + '\nimport vfx.alpha.mod as am\nbm.fn:\n  x = 1\n', NameError),
+    (DR + '\nimport vfx.alpha.mod as am\nam.consumer.p = @s/bm.Cls()\n', NameError),
+    # -- honouring the from / as forms: each form provides exactly ONE name
+    (DR + '\nimport vfx.alpha.mod\nmod.fn.x = 1\n', NameError),                        # plain import binds `vfx`, not `mod`
+    (DR + '\nfrom vfx.alpha import mod\nvfx.alpha.mod.fn.x = 1\n', NameError),         # from-import binds `mod`, not `vfx`
+    (DR + '\nimport vfx.alpha.mod as am\nvfx.alpha.mod.fn.x = 1\n', NameError),        # alias form binds the alias only
+    (DR + '\nimport vfx.alpha.mod as am\nmod.fn.x = 1\n', NameError),
+    (DR + '\nfrom vfx.alpha import mod as am\nmod.fn.x = 1\n', NameError),
+    (DR + '\nfrom vfx import alpha\nalpha.mod.fn.x = 1\n', None),                       # control: package-level from-import
+    (DR + '\nimport vfx.alpha.mod\nvfx.beta.mod.fn.x = 1\n', None),                     # control: sibling through `vfx`
+    (DR + '\nimport vfx.alpha.mod as am\nam.Outer.Nope.y = 1\n', AttributeError),      # missing intermediate attribute
 ]
 NE = len(ERRORS)
 
 
 def c19_errors(case: int) -> bool:
   """
-  pre: 0 <= case < 11
+  pre: 0 <= case < 34
   """
   world.fresh()
   cleanup_vfx()
@@ -162,7 +236,9 @@ def c19_errors(case: int) -> bool:
     with rt.native():
       text, want = ERRORS[case]
       world.use_mem_fs({'child.gin': DR + '\nam.fn.x = 1\n',
-                        'defs.gin': DR + '\nimport vfx.alpha.mod as am\nam.fn.y = 5\n'})
+                        'defs.gin': DR + '\nimport vfx.alpha.mod as am\nam.fn.y = 5\n',
+                        'mid_defs.gin': DR + "\ninclude 'defs.gin'\n",
+                        'mid_child.gin': DR + "\ninclude 'child.gin'\n"})
       exc = None
       try:
         gin.parse_config(text)
@@ -175,22 +251,43 @@ def c19_errors(case: int) -> bool:
     cleanup_vfx()
 
 
-def c19_method_after(f1: int, f2: int, same_file: bool, v: int) -> bool:
+# where the existing references to the class sit: (lines with {b} = bound name, p getter, q-class getter)
+REFSHAPES = [
+    # 0: evaluated top-level reference, unevaluated reference in a list (the original kind)
+    (['{b}.consumer.p = @{b}.Cls()', '{b}.consumer.q = [@{b}.Cls]'], lambda p, q: p, lambda p, q: q[0]),
+    # 1: scoped references (ConfigurableReference.initialize re-splits the scopes)
+    #    the class binding that applies is the one of the references' scopes
+    (['{b}.consumer.p = @s/{b}.Cls()', '{b}.consumer.q = [@t/u/{b}.Cls]'], lambda p, q: p, lambda p, q: q[0],
+     ['{b}.Cls.x = 40', 's/{b}.Cls.x = 41', 't/u/{b}.Cls.x = 41']),
+    # 2: the evaluated reference is the value of a macro
+    (['mac = @{b}.Cls()', '{b}.consumer.p = %mac', '{b}.consumer.q = [@{b}.Cls]'], lambda p, q: p, lambda p, q: q[0]),
+    # 3: references inside a tuple inside a dict value
+    (['{b}.consumer.p = {{"k": (@{b}.Cls(), 1)}}', '{b}.consumer.q = {{"k": (1, [@{b}.Cls])}}'],
+     lambda p, q: p['k'][0], lambda p, q: q['k'][1][0]),
+    # 4: the unevaluated reference is a dict KEY
+    (['{b}.consumer.p = @{b}.Cls()', '{b}.consumer.q = {{@{b}.Cls: 1}}'], lambda p, q: p, lambda p, q: list(q)[0]),
+]
+NRS = len(REFSHAPES)
+
+
+def c19_method_after(f1: int, f2: int, same_file: bool, v: int, refshape: int = 0) -> bool:
   """
-  pre: 0 <= f1 < 5 and 0 <= f2 < 5
+  pre: 0 <= f1 < 5 and 0 <= f2 < 5 and 0 <= refshape < 5
   """
   world.fresh()
   cleanup_vfx()
   f1, f2 = rt.pick(f1, NFORM), rt.pick(f2, NFORM)
   same_file = rt.flag(same_file)
-  rt.sig(('method_after', f1, f2, same_file), nontrivial=True)
+  refshape = rt.pick(refshape, NRS)
+  rt.sig(('method_after', f1, f2, same_file, refshape), nontrivial=True)
   gin.constant('vwc.V', v)
   try:
     with rt.native():
       imp1, b1 = FORMS[f1]('alpha')
       imp2, b2 = FORMS[f2]('alpha')
-      first = [DR, imp1, '%s.Cls.x = 41' % b1, '%s.consumer.p = @%s.Cls()' % (b1, b1),
-               '%s.consumer.q = [@%s.Cls]' % (b1, b1)]
+      reflines, getp, getq = REFSHAPES[refshape][:3]
+      clslines = REFSHAPES[refshape][3] if len(REFSHAPES[refshape]) > 3 else ['{b}.Cls.x = 41']
+      first = [DR, imp1] + [l.format(b=b1) for l in clslines + reflines]
       if same_file:
         gin.parse_config('\n'.join(first + ['%s.Cls.meth.m = %%vwc.V' % b1]) + '\n')
       else:
@@ -198,18 +295,22 @@ def c19_method_after(f1: int, f2: int, same_file: bool, v: int) -> bool:
         gin.parse_config('\n'.join([DR, imp2, '%s.Cls.meth.m = %%vwc.V' % b2]) + '\n')
     # configuring a method of an already referenced class keeps existing references working
     gin.get_configurable(A.consumer)()
-    p, q = A.CALLS[-1][1], A.CALLS[-1][2]
     with rt.native():
-      if not isinstance(p, A.Cls) or not (isinstance(q, list) and issubclass(q[0], A.Cls)):
-        return rt.no('reference to the class broken: %r %r' % (p, q))
-      if p.x != 41 or q[0]().x != 41:
+      p, q = A.CALLS[-1][1], A.CALLS[-1][2]
+      try:
+        p, qc = getp(p, q), getq(p, q)
+      except Exception as e:
+        return rt.no('reference to the class broken: %r %r (%r)' % (p, q, e))
+      if not isinstance(p, A.Cls) or not (isinstance(qc, type) and issubclass(qc, A.Cls)):
+        return rt.no('reference to the class broken: %r %r' % (p, qc))
+      if p.x != 41 or qc().x != 41:
         return rt.no('bindings of the class lost when one of its methods was configured')
     del A.CALLS[:]
     p.meth()
     if not rt.same('method configured through the existing reference', A.CALLS[-1][1], v):
       return False
     del A.CALLS[:]
-    q[0]().meth()
+    qc().meth()
     return rt.same('method configured through the unevaluated reference', A.CALLS[-1][1], v)
   finally:
     cleanup_vfx()
@@ -228,13 +329,24 @@ COLLIDE_FILES = [
     ('from vfx.delta import mod\nmod.fn.x = 55\n', 'delta.fn'),                  # ... and a third one
     # two plain imports of the same depth with the same leaf name in ONE file
     ('import vfx.alpha.mod\nimport vfx.beta.mod\nvfx.alpha.mod.fn.x = 11\nvfx.beta.mod.fn.x = 33\n', 'alpha.fn+beta.fn'),
+    # -- widened: collisions and duplicates inside ONE file
+    # a bound name rebound mid-file: every statement uses the binding in force where it stands
+    ('import vfx.alpha.mod as m\nm.fn.x = 11\nimport vfx.beta.mod as m\nm.fn.x = 33\n', 'alpha.fn+beta.fn'),
+    ('from vfy import vfx\nvfx.hfn.x = 22\nimport vfx.alpha.mod\nvfx.alpha.mod.fn.x = 11\n', 'vfy.hfn+alpha.fn'),
+    # the same module under two names, bindings through both
+    ('import vfx.alpha.mod as a1\nfrom vfx.alpha import mod\na1.fn.x = 11\nmod.Cls.x = 44\n', 'alpha.fn+alpha.Cls'),
+    # a user alias equal to a name the import manager generates (`mod2`)
+    ('import vfy.vfx as mod2\nmod2.hfn.x = 22\n', 'vfy.hfn'),
+    # package-level import with attribute descent, next to the plain imports that bind `vfx` as well
+    ('import vfx\nvfx.alpha.mod.fn.x = 11\nvfx.beta.mod.fn.x = 33\n', 'alpha.fn+beta.fn'),
 ]
 NCF = len(COLLIDE_FILES)
+COLLIDE_VAL = {'alpha.fn': 11, 'vfy.hfn': 22, 'beta.fn': 33, 'alpha.Cls': 44, 'delta.fn': 55}
 
 
 def c19_collide(f1: int, f2: int, f3: int, n: int) -> bool:
   """
-  pre: 0 <= f1 < 10 and 0 <= f2 < 10 and 0 <= f3 < 10 and 1 <= n <= 3
+  pre: 0 <= f1 < 15 and 0 <= f2 < 15 and 0 <= f3 < 15 and 1 <= n <= 3
   """
   import vfy.vfx as H
   import vfx.delta.mod as D
@@ -263,10 +375,8 @@ def c19_collide(f1: int, f2: int, f3: int, n: int) -> bool:
       before = observe()
       want = {'alpha.fn': 0, 'beta.fn': 0, 'vfy.hfn': 0, 'alpha.Cls': 0, 'delta.fn': 0}
       for f in fs:
-        if '+' in COLLIDE_FILES[f][1]:
-          want['alpha.fn'], want['beta.fn'] = 11, 33
-        else:
-          want[COLLIDE_FILES[f][1]] = int(COLLIDE_FILES[f][0].rsplit('= ', 1)[1])
+        for k in COLLIDE_FILES[f][1].split('+'):
+          want[k] = COLLIDE_VAL[k]
       for k, v in want.items():
         if before[k] != 'unregistered' and before[k] != v:
           return rt.no('before serialisation %s received %r, expected %r' % (k, before[k], v))
@@ -293,18 +403,315 @@ def c19_collide(f1: int, f2: int, f3: int, n: int) -> bool:
         del gc._INVERSE_REGISTRY[obj]
 
 
+# ---- widened: one object addressed through several import statements AND attribute paths ---------------------------------
+def _instance(cls):
+  return object.__new__(cls)
+
+
+def _calls(mod):
+  return mod.CALLS
+
+
+def _recv_fn(getter, log):
+  def recv():
+    gin.get_configurable(getter())()
+    return [log()[-1][1]]
+  return recv
+
+
+def _recv_cls(getter):
+  def recv():
+    return [gin.get_configurable(getter())().x]
+  return recv
+
+
+def _recv_meth(fgetter, name, log, classes):
+  """The function-level entry (called on a plain instance) and every class that is registered must agree."""
+  def recv():
+    out = []
+    gin.get_configurable(fgetter())(_instance(classes[0]()))
+    out.append(log()[-1][1])
+    for c in classes:
+      with rt.native():
+        try:
+          wrapped_cls = gin.get_configurable(c())
+        except ValueError:
+          wrapped_cls = None      # the statement does not say which of the classes a shared method registers
+      if wrapped_cls is not None:
+        getattr(wrapped_cls(), name)()
+        out.append(log()[-1][1])
+    return out
+  return recv
+
+
+def _recv_static():
+  def recv():
+    out = []
+    gin.get_configurable(W.Cls.smeth)()
+    out.append(W.CALLS[-1][1])
+    gin.get_configurable(W.Cls).smeth()          # reached through the registered class object
+    out.append(W.CALLS[-1][1])
+    return out
+  return recv
+
+
+IMP_W = ['import vfw.core as wc', 'import vfw', 'from vfw import core', 'from vfw import core as k']
+# group: (label, parameter, python object getter, receive(), [(import statement, dotted path)], setup)
+GROUPS = [
+    # 0 package-level imports with attribute descent (vfx.alpha.mod.fn)
+    ('A.fn', 'x', lambda: A.fn, _recv_fn(lambda: A.fn, lambda: A.CALLS),
+     [('import vfx.alpha.mod as am', 'am.fn'), ('import vfx', 'vfx.alpha.mod.fn'),
+      ('from vfx import alpha', 'alpha.mod.fn'), ('import vfx.beta.mod', 'vfx.alpha.mod.fn'),
+      ('import vfx as vx', 'vx.alpha.mod.fn')]),
+    # 1 re-export in the package __init__ and a module-level alias: one function object, four paths
+    ('W.fn', 'x', lambda: W.fn, _recv_fn(lambda: W.fn, lambda: W.CALLS),
+     [('import vfw.core as wc', 'wc.fn'), ('import vfw', 'vfw.fn'), ('from vfw import core', 'core.fn2'),
+      ('import vfw', 'vfw.core.fn')]),
+    # 2 a method and the same function object inherited by a subclass
+    ('W.Cls.meth', 'm', lambda: W.Cls.meth, _recv_meth(lambda: W.Cls.meth, 'meth', lambda: W.CALLS,
+                                                        [lambda: W.Cls, lambda: W.Sub]),
+     [('import vfw.core as wc', 'wc.Cls.meth'), ('import vfw.core as wc', 'wc.Sub.meth'),
+      ('import vfw', 'vfw.core.Cls.meth'), ('from vfw import core', 'core.Sub.meth')]),
+    # 3 a staticmethod
+    ('W.Cls.smeth', 'm', lambda: W.Cls.smeth, _recv_static(),
+     [('import vfw.core as wc', 'wc.Cls.smeth'), ('import vfw', 'vfw.core.Cls.smeth'),
+      ('from vfw import core', 'core.Cls.smeth')]),
+    # 4 a method of a nested class
+    ('W.Outer.Inner.meth', 'm', lambda: W.Outer.Inner.meth,
+     _recv_meth(lambda: W.Outer.Inner.meth, 'meth', lambda: W.CALLS, [lambda: W.Outer.Inner]),
+     [('import vfw.core as wc', 'wc.Outer.Inner.meth'), ('import vfw', 'vfw.core.Outer.Inner.meth'),
+      ('from vfw import core as k', 'k.Outer.Inner.meth')]),
+    # 5 a top-level package whose name sorts before `__gin__`
+    ('Z.fn', 'x', lambda: Z.fn, _recv_fn(lambda: Z.fn, lambda: Z.CALLS),
+     [('import Vfz.mod', 'Vfz.mod.fn'), ('import Vfz.mod as zm', 'zm.fn'), ('from Vfz import mod as zmod', 'zmod.fn')]),
+    # 6-9 objects registered by a decorator when their module was imported, addressed from a dynamic-registration file
+    ('D.dfn', 'x', lambda: deco().dfn, _recv_fn(lambda: deco().dfn, lambda: deco().CALLS),
+     [('import vfw.deco as d', 'd.dfn'), ('from vfw import deco', 'deco.dfn'), ('import vfw.deco', 'vfw.deco.dfn')]),
+    ('D.DCls', 'x', lambda: deco().DCls, _recv_cls(lambda: deco().DCls),
+     [('import vfw.deco as d', 'd.DCls'), ('from vfw import deco', 'deco.DCls'), ('import vfw.deco', 'vfw.deco.DCls')]),
+    ('D.DCls.dmeth', 'm', lambda: deco().DCls.dmeth,
+     _recv_meth(lambda: deco().DCls.dmeth, 'dmeth', lambda: deco().CALLS, [lambda: deco().DCls]),
+     [('import vfw.deco as d', 'd.DCls.dmeth'), ('from vfw import deco', 'deco.DCls.dmeth'),
+      ('import vfw.deco', 'vfw.deco.DCls.dmeth')]),
+    ('D.rfn', 'x', lambda: deco().rfn, _recv_fn(lambda: deco().rfn, lambda: deco().CALLS),   # registered as vw19r.renamed_fn
+     [('import vfw.deco as d', 'd.rfn'), ('from vfw import deco', 'deco.rfn')]),
+    # 10 registered from Python by external_configurable before the file is parsed
+    ('ext A.fn', 'x', lambda: A.fn, _recv_fn(lambda: A.fn, lambda: A.CALLS),
+     [('import vfx.alpha.mod as am', 'am.fn'), ('from vfx.alpha import mod', 'mod.fn')]),
+]
+NG = len(GROUPS)
+NSP = 5
+# (shape of the two bindings, which string is round-tripped)
+MODES = [('plain', 'config'), ('scoped', 'config'), ('block', 'config'), ('plain', 'operative'), ('scoped', 'operative')]
+NMODE = len(MODES)
+
+
+def _binding(shape, path, param, value):
+  if shape == 'plain':
+    return '%s.%s = %s' % (path, param, value)
+  if shape == 'scoped':
+    return 'a/b/%s.%s = %s' % (path, param, value)
+  return '%s:\n  %s = %s' % (path, param, value)
+
+
+def c19_paths(obj: int, s1: int, s2: int, structure: int, mode: int, v1: int, v2: int) -> bool:
+  """
+  pre: 0 <= obj < 11 and 0 <= s1 < 5 and 0 <= s2 < 5 and 0 <= structure < 4 and 0 <= mode < 5
+  """
+  world.fresh()
+  cleanup19()
+  deco()
+  obj = rt.pick(obj, NG)
+  s1, s2 = rt.pick(s1, NSP), rt.pick(s2, NSP)
+  structure = rt.pick(structure, 4)     # 0 two parses, 1 file 2 included by file 1, 2 file 1 included by file 2,
+  mode = rt.pick(mode, NMODE)           # 3 ONE file holding both imports and both bindings
+  label, param, getter, recv, spellings = GROUPS[obj]
+  if s1 >= len(spellings) or s2 >= len(spellings):
+    rt.discard()
+  shape, which = MODES[mode]
+  rt.sig(('paths', label, s1, s2, structure, mode), nontrivial=True)
+  gin.constant('vwc.V1', v1)
+  gin.constant('vwc.V2', v2)
+  try:
+    with rt.native():
+      if label == 'ext A.fn':
+        gin.external_configurable(A.fn, module='vw19e')
+      (imp1, path1), (imp2, path2) = spellings[s1], spellings[s2]
+      body1 = [imp1, _binding(shape, path1, param, '%vwc.V1')]
+      body2 = [imp2, _binding(shape, path2, param, '%vwc.V2')]
+      t1, t2 = '\n'.join([DR] + body1) + '\n', '\n'.join([DR] + body2) + '\n'
+      try:
+        if structure == 0:
+          gin.parse_config(t1)
+          gin.parse_config(t2)
+        elif structure == 1:
+          world.use_mem_fs({'two.gin': t2})
+          gin.parse_config(t1 + "include 'two.gin'\n")
+        elif structure == 2:
+          world.use_mem_fs({'one.gin': t1})
+          gin.parse_config(DR + "\ninclude 'one.gin'\n" + '\n'.join(body2) + '\n')
+        else:
+          gin.parse_config('\n'.join([DR] + body1 + body2) + '\n')
+      except Exception as e:
+        return rt.no('a valid spelling was rejected: %r' % (e,))
+      the_object = getter()
+      if gc._inverse_lookup(the_object) is None:
+        return rt.no('the object the name resolves to is not the one registered')
+      scope = 'a/b' if shape == 'scoped' else ''
+
+    def observe(want, why):
+      with gin.config_scope(scope):
+        got = recv()
+      for g in got:
+        if not rt.same(why, g, want):
+          return False
+      return True
+
+    # -- both spellings configure the very object: the later binding is the one it receives -------------------------
+    if not observe(v2, 'the very object is configured'):
+      return False
+    # -- the object's bindings seen from Python
+    if shape != 'scoped':
+      seen = gin.get_bindings(the_object)
+      if not rt.same('get_bindings(object)', seen.get(param), v2):
+        return False
+    # -- the emitted (operative) config string re-parses and configures the same object -----------------------------
+    with rt.native():
+      try:
+        text = gin.config_str() if which == 'config' else gin.operative_config_str()
+      except Exception as e:
+        return rt.no('%s_str() raised %r' % (which, e))
+      gc._CONFIG.clear(); gc._CONFIG_PROVENANCE.clear(); gc._IMPORTS.clear(); gc._OPERATIVE_CONFIG.clear()
+      try:
+        gin.parse_config(text)
+      except Exception as e:
+        return rt.no('the emitted string does not re-parse: %r\n%s' % (e, text))
+      if which == 'config' and gin.config_str() != text:
+        return rt.no('config string not stable\n%s' % text)
+    if not observe(v2, 'after re-parsing the emitted string'):
+      return False
+    # -- Python-side binding through the registry's own selector reaches the same object -----------------------------
+    with rt.native():
+      regsel = gc._inverse_lookup(the_object).selector
+      key = (scope + '/' if scope else '') + regsel + '.' + param
+    gin.bind_parameter(key, v1)
+    if not rt.same('query_parameter', gin.query_parameter(key), v1):
+      return False
+    return observe(v1, 'after bind_parameter from Python')
+  finally:
+    cleanup19()
+
+
+# ---- widened: two RELATED objects configured from two files ----------------------------------------------------------
+def _pforms(module, alias):
+  """Five import forms of a module `a.b.c`: (statement, name the module is reachable under)."""
+  pkg, leaf = module.rsplit('.', 1)
+  return [('import %s' % module, module), ('import %s as %s' % (module, alias), alias),
+          ('from %s import %s' % (pkg, leaf), leaf), ('from %s import %s as %s' % (pkg, leaf, alias), alias),
+          ('import %s' % pkg, module)]
+
+
+def _meth_of_cls(name):
+  def recv():
+    getattr(gin.get_configurable(W.Cls)(), name)()
+    return W.CALLS[-1][1]
+  return recv
+
+
+def _cls_x():
+  return gin.get_configurable(W.Cls)().x
+
+
+def _sib(mod):
+  def recv():
+    gin.get_configurable(mod.fn)()
+    return mod.CALLS[-1][1]
+  return recv
+
+
+# (label, module of file 1, module of file 2, alias used by both, member+param of file 1 / file 2, receivers)
+RELS = [
+    ('two methods of one class', 'vfw.core', 'vfw.core', ('wc', 'wc'), 'Cls.meth.m', 'Cls.meth2.m',
+     _meth_of_cls('meth'), _meth_of_cls('meth2')),
+    ('sibling modules, same alias', 'vfw.sib.one', 'vfw.sib.two', ('m', 'm'), 'fn.x', 'fn.x', _sib(S1), _sib(S2)),
+    ('method, then the class', 'vfw.core', 'vfw.core', ('wc', 'wc'), 'Cls.meth.m', 'Cls.x', _meth_of_cls('meth'), _cls_x),
+    ('class, then a method', 'vfw.core', 'vfw.core', ('wc', 'wc'), 'Cls.x', 'Cls.meth.m', _cls_x, _meth_of_cls('meth')),
+]
+NREL = len(RELS)
+
+
+def c19_pair(rel: int, f1: int, f2: int, structure: int, v1: int, v2: int) -> bool:
+  """
+  pre: 0 <= rel < 4 and 0 <= f1 < 5 and 0 <= f2 < 5 and 0 <= structure < 4
+  """
+  world.fresh()
+  cleanup19()
+  rel = rt.pick(rel, NREL)
+  f1, f2 = rt.pick(f1, 5), rt.pick(f2, 5)
+  structure = rt.pick(structure, 4)
+  label, mod1, mod2, aliases, tgt1, tgt2, recv1, recv2 = RELS[rel]
+  rt.sig(('pair', label, f1, f2, structure), nontrivial=True)
+  gin.constant('vwc.V1', v1)
+  gin.constant('vwc.V2', v2)
+  try:
+    with rt.native():
+      imp1, b1 = _pforms(mod1, aliases[0])[f1]
+      imp2, b2 = _pforms(mod2, aliases[1])[f2]
+      body1 = [imp1, '%s.%s = %%vwc.V1' % (b1, tgt1)]
+      body2 = [imp2, '%s.%s = %%vwc.V2' % (b2, tgt2)]
+      t1, t2 = '\n'.join([DR] + body1) + '\n', '\n'.join([DR] + body2) + '\n'
+      try:
+        if structure == 0:
+          gin.parse_config(t1)
+          gin.parse_config(t2)
+        elif structure == 1:
+          world.use_mem_fs({'two.gin': t2})
+          gin.parse_config(t1 + "include 'two.gin'\n")
+        elif structure == 2:
+          world.use_mem_fs({'one.gin': t1})
+          gin.parse_config(DR + "\ninclude 'one.gin'\n" + '\n'.join(body2) + '\n')
+        else:
+          gin.parse_config('\n'.join([DR] + body1 + body2) + '\n')   # ONE file; with one alias it is rebound mid-file
+      except Exception as e:
+        return rt.no('valid files were rejected: %r' % (e,))
+    if not rt.same('object of file 1 configured', recv1(), v1):
+      return False
+    if not rt.same('object of file 2 configured', recv2(), v2):
+      return False
+    with rt.native():
+      try:
+        text = gin.config_str()
+      except Exception as e:
+        return rt.no('config_str() raised %r' % (e,))
+      gc._CONFIG.clear(); gc._CONFIG_PROVENANCE.clear(); gc._IMPORTS.clear()
+      try:
+        gin.parse_config(text)
+      except Exception as e:
+        return rt.no('config string does not re-parse: %r\n%s' % (e, text))
+      if gin.config_str() != text:
+        return rt.no('config string not stable\n%s' % text)
+    if not rt.same('object of file 1 after the round trip', recv1(), v1):
+      return False
+    return rt.same('object of file 2 after the round trip', recv2(), v2)
+  finally:
+    cleanup19()
+
+
 HARNESSES = {
     'c19_collide': dict(
         fn='c19_collide',
         anchors=['gin.config:add_import', 'gin.config:_config_str', 'gin.config:minimal_selector'],
-        smoke=[dict(f1=0, f2=1, f3=3, n=3), dict(f1=1, f2=0, f3=0, n=2)],
+        smoke=[dict(f1=0, f2=1, f3=3, n=3), dict(f1=1, f2=0, f3=0, n=2), dict(f1=10, f2=11, f3=12, n=3),
+               dict(f1=13, f2=3, f3=7, n=3), dict(f1=14, f2=4, f3=11, n=3)],
         tiers={'quick': dict(split=dict(f1=list(range(NCF))), fixed=dict(n=3), budget_s=100),
                'thorough': dict(split=dict(f1=list(range(NCF)), f2=list(range(NCF))), fixed=dict(n=3),
                                 budget_s=300)},
-        bounds='3 files in every order from 10 whose imports bind colliding names (incl. three modules bound as `mod` and two plain imports of the same depth and leaf in one file; (plain dotted '
-               'import of package vfx x2, from-import / alias / plain import of vfy.vfx, alias equal to another package '
-               'name, from-import binding `mod` twice); the emitted config string must re-parse and configure the same '
-               'Python objects'),
+        bounds='3 files in every order from 15 whose imports bind colliding names (plain dotted import of package vfx '
+               'x2, from-import / alias / plain import of vfy.vfx, alias equal to another package name, three modules '
+               'bound as `mod`, two plain imports of the same depth and leaf in one file; and inside ONE file: a bound '
+               'name rebound mid-file (alias `m`, root name `vfx`), one module under two names, a user alias equal to '
+               'the generated `mod2`, `import vfx` with attribute descent to two sub-modules); the emitted config '
+               'string must re-parse and configure the same Python objects'),
     'c19_spellings': dict(
         fn='c19_spellings',
         anchors=['gin.config:process_import', 'gin.config:_resolve_selector', 'gin.config:_register',
@@ -319,20 +726,83 @@ HARNESSES = {
                'of two files (incl. a bound name that collides across files and with the sibling package) x 3 structures '
                '(separate parses, file 2 included by file 1, file 1 included by file 2) x reference before binding or '
                'not; bound values: all ints (through constants)'),
+    'c19_paths': dict(
+        fn='c19_paths',
+        anchors=['gin.config:process_import', 'gin.config:_resolve_selector', 'gin.config:_import_source',
+                 'gin.config:_register', 'gin.config:require_configurable', 'gin.config:minimal_selector',
+                 'gin.config:operative_config_str', 'gin.config:bind_parameter'],
+        smoke=[dict(obj=0, s1=1, s2=3, structure=0, mode=0, v1=1, v2=2),
+               dict(obj=0, s1=3, s2=1, structure=0, mode=0, v1=1, v2=2),
+               dict(obj=0, s1=2, s2=4, structure=3, mode=3, v1=1, v2=2),
+               dict(obj=1, s1=1, s2=2, structure=1, mode=1, v1=1, v2=2),
+               dict(obj=1, s1=3, s2=0, structure=2, mode=2, v1=1, v2=2),
+               dict(obj=2, s1=0, s2=0, structure=0, mode=4, v1=1, v2=2),
+               dict(obj=2, s1=1, s2=1, structure=3, mode=0, v1=1, v2=2),
+               dict(obj=3, s1=0, s2=2, structure=0, mode=0, v1=1, v2=2),
+               dict(obj=4, s1=1, s2=2, structure=1, mode=2, v1=1, v2=2),
+               dict(obj=6, s1=0, s2=2, structure=0, mode=3, v1=1, v2=2),
+               dict(obj=7, s1=1, s2=0, structure=2, mode=0, v1=1, v2=2),
+               dict(obj=8, s1=0, s2=0, structure=3, mode=0, v1=1, v2=2),
+               dict(obj=9, s1=0, s2=1, structure=0, mode=1, v1=1, v2=2),
+               dict(obj=10, s1=0, s2=1, structure=0, mode=0, v1=1, v2=2)],
+        # quick: binding shape / emitted string combined as (plain, config_str), (block, config_str), (scoped, operative)
+        tiers={'quick': dict(split=dict(obj=list(range(NG)), mode=[0, 2, 4], structure=[0, 1, 2, 3]), budget_s=150),
+               'thorough': dict(split=dict(obj=list(range(NG)), structure=[0, 1, 2, 3], mode=list(range(NMODE))),
+                                budget_s=300)},
+        bounds='11 objects, each addressed through 2-5 (import statement, attribute path) spellings in each of two '
+               'files: package-level imports with attribute descent (`import vfx`, `from vfx import alpha`, a sibling '
+               'reached through the parent binding, `import vfx as vx`), a re-export in a package __init__, a '
+               'module-level alias, a method and the same function inherited by a subclass, a staticmethod, a method of '
+               'a nested class, a top-level package whose name starts with an uppercase letter, a function / class / '
+               'method of a class / renamed function registered by @gin.configurable at import, a function registered '
+               'by external_configurable before the parse; x 4 structures (separate parses, include either way, ONE '
+               'file holding both imports) x 3 binding shapes (plain, scoped a/b/, block) x round trip through '
+               'config_str() or operative_config_str(); then bind_parameter / query_parameter from Python through the '
+               'registry selector; bound values: all ints (through constants)'),
+    'c19_pair': dict(
+        fn='c19_pair',
+        anchors=['gin.config:process_import', 'gin.config:_register', 'gin.config:_find_registered_methods',
+                 'gin.config:add_import'],
+        smoke=[dict(rel=0, f1=1, f2=1, structure=0, v1=1, v2=2), dict(rel=1, f1=0, f2=2, structure=1, v1=1, v2=2),
+               dict(rel=2, f1=0, f2=2, structure=2, v1=1, v2=2), dict(rel=3, f1=2, f2=2, structure=3, v1=1, v2=2)],
+        tiers={'quick': dict(split=dict(rel=list(range(NREL)), f1=[0, 1, 2, 3, 4]), budget_s=100),
+               'thorough': dict(split=dict(rel=list(range(NREL)), f1=[0, 1, 2, 3, 4], f2=[0, 1, 2, 3, 4]),
+                                budget_s=300)},
+        bounds='two related objects configured from two files (or from one file, 4 structures) with 5 x 5 import forms: '
+               'two methods of one class; same-named functions of two sibling modules bound to the SAME alias (rebound '
+               'mid-file in the one-file structure); a method then its class; a class then one of its methods; each '
+               'object must receive its own value, before and after the config-string round trip; values: all ints'),
     'c19_errors': dict(
         fn='c19_errors', anchors=['gin.config:process_import', 'gin.config:_resolve_selector'],
-        smoke=[dict(case=0), dict(case=6)],
+        smoke=[dict(case=c) for c in range(NE)],
         tiers={'quick': dict(split={}, budget_s=60), 'thorough': dict(split={}, budget_s=60)},
-        bounds='9 error cases (name not imported, missing attribute, reserved name gin, late / aliased enabling, unknown '
-               '__gin__ feature, parent\'s import used by an included file and the reverse, reference to a not imported '
-               'name) + 2 control cases'),
+        bounds='30 error cases (name not imported - also inside a nested value, a scoped binding, a block header, a '
+               'scoped reference; a name only another form of the import would provide (5 cases); missing attribute, '
+               'missing intermediate attribute; reserved name gin through an alias, a from-import alias, plain `import '
+               'gin` / `import gin.config`; late enabling after an import / from-import / a second enabling statement; '
+               'aliased enabling (also to its own name); unknown __gin__ feature (also after enabling, also aliased); '
+               'import of the including file, of an included file, of a sibling include, of a grandparent / grandchild) '
+               '+ 4 control cases'),
     'c19_method_after': dict(
         fn='c19_method_after', anchors=['gin.config:_register', 'gin.config:initialize'],
-        smoke=[dict(f1=1, f2=1, same_file=True, v=3), dict(f1=1, f2=3, same_file=False, v=3)],
-        tiers={'quick': dict(split=dict(f1=list(range(NFORM))), budget_s=100),
-               'thorough': dict(split=dict(f1=list(range(NFORM)), f2=list(range(NFORM))), budget_s=300)},
+        smoke=[dict(f1=1, f2=1, same_file=True, v=3, refshape=0), dict(f1=1, f2=3, same_file=False, v=3, refshape=0),
+               dict(f1=0, f2=0, same_file=False, v=3, refshape=1), dict(f1=2, f2=2, same_file=True, v=3, refshape=2),
+               dict(f1=3, f2=3, same_file=True, v=3, refshape=3), dict(f1=4, f2=4, same_file=False, v=3, refshape=4)],
+        tiers={'quick': dict(split=dict(f1=list(range(NFORM)), refshape=list(range(NRS))), budget_s=100),
+               'thorough': dict(split=dict(f1=list(range(NFORM)), f2=list(range(NFORM)), refshape=list(range(NRS))),
+                                budget_s=300)},
         bounds='a class referenced (evaluated and unevaluated) and later one of its methods configured, from the same '
-               'file or from another file with any of 5 x 5 import forms; bound value: all ints'),
+               'file or from another file with any of 5 x 5 import forms; the references sit at top level / in a list, '
+               'under scopes, in a macro, in a tuple inside a dict value, or as a dict KEY; bound value: all ints'),
 }
-ASSUMPTIONS = ['fixture package /verif/fixtures/vfx; the import system and attribute lookup are CPython C code executed natively',
-               'registry entries of fixture objects are removed between paths through the private registries']
+ASSUMPTIONS = ['fixture packages /verif/fixtures/vfx, vfy, vfw, Vfz; the import system and attribute lookup are CPython C '
+               'code executed natively',
+               'registry entries of fixture objects are removed between paths through the private registries; the '
+               'entries made by the decorators of vfw.deco at import are restored',
+               'methods are observed through gin.get_configurable(function)(plain instance) and through every class '
+               'among {named class, base class, subclass} that is registered; which of those classes a method '
+               'registration registers is not judged']
+OUTSIDE = ('not exercised: gin.external_configurable / re-registration from Python AFTER a dynamic parse, files mixing '
+           'dynamic and static registration, from-import of a non-module, C-implemented callables, custom metaclasses '
+           'and __slots__, gin builtins other than macros/constants inside dynamic files, clear_config() followed by '
+           'config_str(), diamond includes; instance.staticmethod() on instances made by the registered class')
